@@ -9,9 +9,10 @@ import (
 )
 
 // statement corpus with its ground truth against the two rules used below:
-//   query rule  "select a from t1 where b = 1"  (normalized text: keyword case and blanks do not matter, literals do)
-//   table rule  "t2"
-//   pattern rule "select a from t1 where b = %%VALUE%%"
+//
+//	query rule  "select a from t1 where b = 1"  (normalized text: keyword case and blanks do not matter, literals do)
+//	table rule  "t2"
+//	pattern rule "select a from t1 where b = %%VALUE%%"
 type verifStmt struct {
 	sql         string
 	parses      bool
